@@ -39,6 +39,7 @@ def _case(draw, tier):
     g["pkgs"] = draw(st.sampled_from([["", "a"], ["", "a", "a/b"], ["a/b/c", ""], ["p-1", "p-1/_q", ""]]))
     for t in g["tasks"]:
         t["pkg"] = draw(st.sampled_from(range(len(g["pkgs"]))))
+    graph.dedupe_names(g)
     for t in g["tasks"]:
         for d in t["deps"]:
             if g["tasks"][d[0]]["pkg"] != t["pkg"]:
